@@ -858,6 +858,26 @@ pub fn run(tier: &str) -> i32 {
             }
         }
     });
+    // ---- (3d) completion implies the right bytes also *behind* a full window: the valid
+    // length x distance sweeps (every distance class boundary, every power of two -2..+1, after
+    // 32 KiB of incompressible history) in a flat buffer and in rings of exactly one and two windows
+    let deep = deep_valid_streams();
+    let accs3d = par_for(deep.len(), Acc::default, |i, acc| {
+        watchdog::tick(i as u64, 5);
+        let s = &deep[i];
+        for mem in [MemCfg { mode: Mode::Flat, len: s.plain.len() + 600 }, MemCfg { mode: Mode::Ring, len: 32768 }, MemCfg { mode: Mode::Ring, len: 65536 }] {
+            for ch in [Chunking::OneCall, Chunking::OneCallMore, Chunking::Cut(s.bytes.len() - 40)] {
+                if let Err((site, what)) = check_one(&s.bytes, s.zlib, mem, ch, Known::Nothing, acc) {
+                    rep.violation(
+                        &format!("C04/{}/deep-valid", site),
+                        format!("{} :: [{}] {:?} {:?}", what, s.desc, mem, ch),
+                        json!({"input_hex": Value::Null, "deep_valid": i, "zlib": s.zlib, "mode": format!("{:?}", mem.mode), "buflen": mem.len, "chunking": format!("{:?}", ch), "proper_prefix": false, "base": s.desc}),
+                    );
+                }
+            }
+        }
+    });
+    rep.set("deep_valid_streams", json!(deep.len()));
     let late_invalid: u64 = accs3b.iter().map(|a| a.classes.get("invalid-rejected").copied().unwrap_or(0)).sum();
     rep.set("late_violation_streams", json!(late.len()));
     rep.set("late_violation_runs_reference_invalid", json!(late_invalid));
@@ -867,7 +887,7 @@ pub fn run(tier: &str) -> i32 {
     let mut distinct = 0usize;
     let mut prefix_checks = acc3.prefix_checks;
     let mut reasons: BTreeSet<&'static str> = acc3.invalid_reasons.clone();
-    for a in accs1.iter().chain(accs2.iter()).chain(accs3b.iter()).chain(std::iter::once(&acc3c)) {
+    for a in accs1.iter().chain(accs2.iter()).chain(accs3b.iter()).chain(accs3d.iter()).chain(std::iter::once(&acc3c)) {
         evals += a.evals;
         for (k, v) in &a.classes {
             *classes.entry(k).or_insert(0) += v;
@@ -905,6 +925,13 @@ pub fn run(tier: &str) -> i32 {
     rep.finish()
 }
 
+/// Valid streams with matches behind 32 KiB of history (fixed seed: replay files index this list).
+fn deep_valid_streams() -> Vec<crate::gen::GenStream> {
+    use crate::gen::CodeShape;
+    use crate::streams::Coding;
+    crate::streams::length_distance_sweeps(None, false, &[Coding::Fixed, Coding::Dyn(CodeShape::Flat, CodeShape::ChainDeep(15))], 0x04)
+}
+
 pub fn replay(v: &Value) -> Option<String> {
     if v.get("reuse").is_some() {
         let h = unhex(v["history_hex"].as_str()?);
@@ -926,8 +953,12 @@ pub fn replay(v: &Value) -> Option<String> {
     let d = match v["input_hex"].as_str() {
         Some(h) => unhex(h),
         None => {
-            let name = v["late"].as_str()?;
-            late_violations(true).into_iter().find(|l| l.0 == name)?.1
+            if let Some(i) = v["deep_valid"].as_u64() {
+                deep_valid_streams().into_iter().nth(i as usize)?.bytes
+            } else {
+                let name = v["late"].as_str()?;
+                late_violations(true).into_iter().find(|l| l.0 == name)?.1
+            }
         }
     };
     let zlib = v["zlib"].as_bool()?;
